@@ -373,3 +373,21 @@ func (p *Prog) errFunc(r *Report, rule string, fn *ssa.Function) {
 		}
 	}
 }
+
+// ruleErrPkg checks the error-producing calls inside the named functions themselves, restricted to functions whose
+// qualified name has one of the prefixes (used for the wrapper packages: the core they call is checked by its own properties).
+func ruleErrPkg(p *Prog, r *Report, roots []string, prefixes []string) {
+	const rule = "ERR.path"
+	rs := p.resolve(r, rule, roots...)
+	reach := p.Reach(rs...)
+	var fns []*ssa.Function
+	for f := range reach {
+		if p.InModule(f) && hasPrefixAny(p.Name(f), prefixes...) {
+			fns = append(fns, f)
+		}
+	}
+	sort.Slice(fns, func(i, j int) bool { return p.Name(fns[i]) < p.Name(fns[j]) })
+	for _, fn := range fns {
+		p.errFunc(r, rule, fn)
+	}
+}
